@@ -517,6 +517,17 @@ public:
                                 });
                             }
                         });
+                        J.attributeArray("typedefs", [&] {
+                            for (auto *Dd : RD->decls()) {
+                                if (auto *TD = dyn_cast<TypedefNameDecl>(Dd)) {
+                                    J.object([&] {
+                                        J.attribute("name", TD->getNameAsString());
+                                        J.attribute("t", C.typeStr(TD->getUnderlyingType()));
+                                        D.loc(TD->getLocation());
+                                    });
+                                }
+                            }
+                        });
                         J.attributeArray("methods", [&] {
                             for (auto *Dd : RD->decls()) {
                                 const CXXMethodDecl *M = dyn_cast<CXXMethodDecl>(Dd);
